@@ -98,6 +98,9 @@ function deepmergeConstructor(options: any) {
       value !== null &&
       !(value instanceof RegExp) &&
       !(value instanceof Date) &&
+      // Map and Set keep their content in internal slots: rebuilt key by key they would come out as `{}`
+      !(value instanceof Map) &&
+      !(value instanceof Set) &&
       !ArrayBuffer.isView(value)
     );
   }
@@ -114,6 +117,8 @@ function deepmergeConstructor(options: any) {
           value === null ||
           value instanceof RegExp ||
           value instanceof Date ||
+          value instanceof Map ||
+          value instanceof Set ||
           ArrayBuffer.isView(value) ||
           // @ts-ignore
           value instanceof Buffer
@@ -122,6 +127,8 @@ function deepmergeConstructor(options: any) {
           value === null ||
           value instanceof RegExp ||
           value instanceof Date ||
+          value instanceof Map ||
+          value instanceof Set ||
           ArrayBuffer.isView(value);
 
   const mergeArray =
